@@ -6,7 +6,7 @@
 
    package j2x  (/repo/j2x/j2x.go)
      JsonToMap(j)                         = NewMapJson(j)
-     MapToJson(m, safe...)                = Map(m).Json(safe...)            [code drops safe: finding]
+     MapToJson(m, safe...)                = Map(m).Json(safe...)            (repaired 6251df7)
      JsonToXml(j)                         = NewMapJson ; Xml()
      JsonToXmlWriter(j, w)                = NewMapJson ; XmlWriter(w)
      JsonReaderToXml(r)                   = NewMapJsonReaderRaw ; Xml()     (returns raw, xml)
@@ -57,17 +57,17 @@
      XmlMsgsFromFileAsJson(f, ph, eh, recast...)      = the same ; Json()
      Unmarshal(doc, v)                    v *map[string]interface{}: NewMapXml(doc) copied into *v;
                                           v *string: ByteDocToJson(doc); other types: encoding/xml - no core counterpart
-     CastNanInf(b)                        = mxj.CastNanInf(b)     [code sets a private variable nothing reads: finding]
+     CastNanInf(b)                        = mxj.CastNanInf(b)     (repaired a59bf47)
      ValuesForKey(m, k)        RE-IMPLEMENTED  ~ Map(m).ValuesForKey(k): the wrapper returns the stored value, the core
                                           the members of a stored list - equal after flat_map final; k <> "*"
      ValuesForTag(doc, t)                 = NewMapXml ; ValuesForKey(m, t)        (the wrapper's own)
      ReaderValuesForTag(rdr, t)           = NewMapXmlReader ; ValuesForKey(m, t)
-     PathsForKey(m, k)         RE-IMPLEMENTED  = Map(m).PathsForKey(k) as a set   [crumb mutation: finding]
+     PathsForKey(m, k)         RE-IMPLEMENTED  = Map(m).PathsForKey(k) as a set   (crumb mutation repaired 5ff47ea)
      PathForKeyShortest(m, k)  RE-IMPLEMENTED  = Map(m).PathForKeyShortest(k) (a shortest member of that set)
      PathsForTag / BytePathsForTag(doc, k)            = NewMapXml ; PathsForKey(m, k)
      PathForTagShortest / BytePathForTagShortest      = NewMapXml ; PathForKeyShortest(m, k)
      ValuesFromKeyPath(m, p, getAttrs...)  RE-IMPLEMENTED  = Map(m).ValuesForPath(p), attribute entries ('-' first)
-                                          skipped at "*" unless getAttrs; no [i] notation  [empty key at "*" panics: finding]
+                                          skipped at "*" unless getAttrs; no [i] notation  (empty-key panic repaired 3b36840)
      ValuesFromTagPath(doc, p, getAttrs...)           = NewMapXml ; ValuesFromKeyPath
      ReaderValuesFromTagPath(rdr, p, getAttrs...)     = NewMapXmlReader ; ValuesFromKeyPath
      ValuesAtKeyPath(m, p, getAttrs...)    RE-IMPLEMENTED  = ValuesFromKeyPath(m, parent(p)) when p's last key is "*" or
@@ -110,14 +110,6 @@ Fixpoint reach_f (ga : bool) (ks : list str) (v : value) : list value :=
   end.
 
 (* ---------- side conditions ---------- *)
-(* no map of the tree has the empty key (true of every decoded XML document) *)
-Fixpoint no_empty_key (v : value) : bool :=
-  match v with
-  | VMap m => forallb (fun kv => match fst kv with [] => false | _ => true end) m &&
-              forallb (fun kv => no_empty_key (snd kv)) m
-  | VList l => forallb no_empty_key l
-  | _ => true
-  end.
 (* no map of the tree has a key starting with '-' *)
 Fixpoint no_attr_keys (v : value) : bool :=
   match v with
@@ -127,23 +119,6 @@ Fixpoint no_attr_keys (v : value) : bool :=
   | _ => true
   end.
 Definition no_star (ks : list str) : bool := negb (existsb (fun k => str_eqb k star) ks).
-
-(* some map of the tree has key [k] *)
-Fixpoint key_occurs (k : str) (v : value) : bool :=
-  match v with
-  | VMap m => has_key k m || existsb (fun kv => key_occurs k (snd kv)) m
-  | VList l => existsb (key_occurs k) l
-  | _ => false
-  end.
-(* [k] does not occur below a map that has [k]: the occurrences of the key are
-   not nested on one branch (this is what the wrapper's crumb mutation needs) *)
-Fixpoint key_not_nested (k : str) (v : value) : bool :=
-  match v with
-  | VMap m => if has_key k m then negb (existsb (fun kv => key_occurs k (snd kv)) m)
-              else forallb (fun kv => key_not_nested k (snd kv)) m
-  | VList l => forallb (key_not_nested k) l
-  | _ => true
-  end.
 
 (* the path string splits into exactly the keys the core uses: the core drops
    one trailing empty segment ("a.b." = "a.b"), the wrapper does not *)
@@ -158,8 +133,7 @@ Definition values_at_spec (ga : bool) (keys : list str) (m : value) : list value
   if str_eqb key star || existsb (xw_map_has key) parents then parents else [].
 
 (* CastNanInf(b) of x2j-wrapper: documented as mxj's switch ("Cast Nan, Inf, -Inf XML values to float64") *)
-Definition c_CastNanInf (b : bool) (st : nanst) : nanst :=
-  {| core_castNanInf := b; own_castNanInf := own_castNanInf st |}.
+Definition c_CastNanInf (b : bool) (st : nanst) : nanst := {| core_castNanInf := b |}.
 
 (* ---------- the documented compositions (DESIGN.md Appendix D) over the codec environment ---------- *)
 Section Table.
@@ -272,7 +246,7 @@ Variable JsonMarshalIndent : value -> str -> str -> res str.
    (left: the transcribed bodies of Model/X2jWrap.v section Thin, the place of Gen/Wrappers_gen.v) *)
 Definition j2x_agrees : Prop :=
   (forall j, j2x_JsonToMap NewMapJson j = c_JsonToMap NewMapJson j) /\
-  (forall m, j2x_MapToJson MapJson m false = c_MapToJson MapJson m false) /\
+  (forall m f, j2x_MapToJson MapJson m f = c_MapToJson MapJson m f) /\
   (forall j, j2x_JsonToXml NewMapJson MapXml j = c_JsonToXml NewMapJson MapXml j) /\
   (forall j, j2x_JsonToXmlWriter NewMapJson MapXml j = c_JsonToXml NewMapJson MapXml j) /\
   (forall rd, j2x_JsonReaderToXml NewMapJsonReaderRaw MapXml rd = c_JsonReaderToXml NewMapJsonReaderRaw MapXml rd) /\
